@@ -177,6 +177,7 @@ class MinErrorFlow():
 
         self._solution = None
         self._is_solved = None
+        self._few_flow_values_model_installed = False
         self.solve_statistics = dict()
 
         self.edge_vars = {}
@@ -375,6 +376,13 @@ class MinErrorFlow():
         """
         utils.logger.info(f"{__name__}: solving with graph id = {utils.fpid(self.G)}")
         start_time = time.perf_counter()
+        if self._few_flow_values_model_installed:
+            # A previous call left the few-flow-values model in the solver: the minimum error is found with the first model again
+            self._create_solver()
+            self._encode_flow()
+            self._encode_min_sum_errors_objective()
+            self._few_flow_values_model_installed = False
+            self._solution = None
         self.solver.optimize()
         self.solve_statistics[f"milp_solve_time"] = (time.perf_counter() - start_time)
 
@@ -416,6 +424,7 @@ class MinErrorFlow():
 
                 utils.logger.info(f"{__name__}: re-solving now by minimizing the number of different flow values within 1 + epsilon tolerance to the objective value, i.e. <=(1+{self.different_flow_values_epsilon})*{objective_value}")
                 self._create_solver()
+                self._few_flow_values_model_installed = True
                 self._encode_flow()
                 self._encode_different_flow_values_and_objective(
                     edge_subset=edge_subset,
